@@ -352,6 +352,64 @@ func genTplToken(repo, out string) error {
 		return broken("compile.go: idents map not found")
 	}
 
+	// Relocate of tpl/tpl.go: which dynamic error types the type switch handles, and whether an
+	// unhandled type panics
+	tpath := filepath.Join(repo, "tpl", "tpl.go")
+	tf, err := parser.ParseFile(fset, tpath, nil, 0)
+	if err != nil {
+		return broken("cannot parse %s: %v", tpath, err)
+	}
+	var relocHandled []string
+	relocDefaultPanics := false
+	relocFound := false
+	for _, d := range tf.Decls {
+		fd, ok := d.(*ast.FuncDecl)
+		if !ok || fd.Recv != nil || fd.Name.Name != "Relocate" {
+			continue
+		}
+		if len(fd.Body.List) != 2 || tplTokSrc(fset, fd.Body.List[1]) != "return err" {
+			return broken("tpl.Relocate: body is not `switch e := err.(type) {...}; return err`: %s", tplTokSrc(fset, fd.Body))
+		}
+		ts, ok := fd.Body.List[0].(*ast.TypeSwitchStmt)
+		if !ok || tplTokSrc(fset, ts.Assign) != "e := err.(type)" {
+			return broken("tpl.Relocate: first statement is not `switch e := err.(type)`")
+		}
+		relocFound = true
+		for _, c := range ts.Body.List {
+			cc := c.(*ast.CaseClause)
+			if cc.List == nil { // default
+				ast.Inspect(cc, func(n ast.Node) bool {
+					if ce, ok := n.(*ast.CallExpr); ok {
+						if id, ok := ce.Fun.(*ast.Ident); ok && id.Name == "panic" {
+							relocDefaultPanics = true
+						}
+					}
+					return true
+				})
+				continue
+			}
+			for _, t := range cc.List {
+				relocHandled = append(relocHandled, tplTokSrc(fset, t))
+			}
+			// a handled case must not panic itself
+			bad := false
+			ast.Inspect(cc, func(n ast.Node) bool {
+				if ce, ok := n.(*ast.CallExpr); ok {
+					if id, ok := ce.Fun.(*ast.Ident); ok && id.Name == "panic" {
+						bad = true
+					}
+				}
+				return true
+			})
+			if bad {
+				return broken("tpl.Relocate: a non-default case calls panic")
+			}
+		}
+	}
+	if !relocFound {
+		return broken("tpl.go: func Relocate not found")
+	}
+
 	var b strings.Builder
 	b.WriteString("/- GENERATED by /verif/extract (target tpltoken) from tpl/token/token.go and tpl/cl/compile.go.\n   Do not edit. -/\n")
 	b.WriteString("namespace GopModel.Generated.TplToken\n\n")
@@ -388,6 +446,14 @@ func genTplToken(repo, out string) error {
 		}
 		fmt.Fprintf(&b, "  ([%s], %d)%s -- %s\n", strings.Join(bs, ", "), id.val, sep, id.name)
 	}
-	b.WriteString("]\n\nend GopModel.Generated.TplToken\n")
+	b.WriteString("]\n\n/-- dynamic error types handled by the type switch of `tpl.Relocate` -/\ndef relocateHandled : List String := [")
+	for i, h := range relocHandled {
+		if i > 0 {
+			b.WriteString(", ")
+		}
+		b.WriteString(strconv.Quote(h))
+	}
+	fmt.Fprintf(&b, "]\n\n/-- does `tpl.Relocate` panic on an error of any other type (a `default:` clause calling panic)? -/\ndef relocateDefaultPanics : Bool := %v\n", relocDefaultPanics)
+	b.WriteString("\nend GopModel.Generated.TplToken\n")
 	return writeIfChanged(filepath.Join(out, "TplToken.lean"), []byte(b.String()))
 }
